@@ -49,6 +49,9 @@ CLAIMS = {
     "C14": ("random histories of public mutations (model / material parameter writes incl. relative changes down to 1e-7, density, Rayleigh damping, Translate / Rotate / Symmetry, coordinate assignment, mesh replacement by another or by a same-connectivity mesh, Bc_Init + re-add, time-scheme switches, Save_Iter / Set_Iter across meshes, load-step commits of the non-linear kinds, a model shared by two simulations) are applied to one live simulation of every kind (Elastic iso / anisotropic, Thermal, Beam, WeakForms, PhaseField, HyperElastic static and dynamic, InElastic); after each mutation burst K, C, M, F, Solve, velocity and Svm of the live object are compared with a brand-new simulation built from the recorded final configuration; a mismatch only counts when a second twin perturbed by one unit of round-off agrees with the first (conditioning guard)",
             "sequences <= 22 operations; meshes <= ~60 elements; non-linear kinds are compared from the zero state and not after a committed load step until the mesh is replaced (internal variables cannot be handed to a new simulation through the public interface); beam meshes are not moved",
             "differential oracle (fresh-twin reference execution) over recorded mutation histories of live simulation objects"),
+    "C15": ("a shadow history kept by the monitor (deep copies of every solution vector, every Results_Available() result in node and element form, mesh coordinates / connectivities / tags, the Get_results dict, plus a deep copy of the whole live object taken when the iteration was saved) is compared, over random interleavings of load step + Solve / Save_Iter / folder changes (two scratch folders and memory) / Set_Iter / Get_results / Result(iter=) / mesh replacement / writes into getter arrays / Save + Load_Simu (also re-saved elsewhere and moved to another folder) / Mesh.Save + Load_Mesh, with what the live or loaded object gives back: restored fields, mesh, results, purity of reads, immutability of stored iterations under later solves, and - for internal variables - the recorded next load step replayed from the restored object against the same step replayed from the deep copy",
+            "histories <= 24 operations on meshes <= ~60 elements; the time scheme is fixed within a history; client writes into arrays returned by Get_results are not exercised; InElastic Save/Load is a recorded known finding (closures cannot be pickled)",
+            "trace checker against a shadow history (deep-copied observations + reference continuation on a deep copy) over recorded save / restore histories"),
 }
 
 
